@@ -187,7 +187,10 @@ def _eligible_poll(F, caller, t, stack):
 #   yields: "false" / "true" constant, or "arg1" = the default operand handed to map_or
 COMBINATORS = (("core::option::Option::is_some_and", ("0", "false", "Some")), ("core::option::Option::is_none_or", ("0", "true", "Some")),
                ("core::option::Option::map_or", ("0", "arg1", "Some")),
-               ("core::result::Result::is_ok_and", ("1", "false", "Ok")), ("core::result::Result::is_err_and", ("0", "false", "Err")))
+               ("core::result::Result::is_ok_and", ("1", "false", "Ok")), ("core::result::Result::is_err_and", ("0", "false", "Err")),
+               # value-producing forms: the other variant is handed on ("none" / "same"), the closure's result is wrapped ("Some" / "Ok") or not
+               ("core::option::Option::map", ("0", "none", "Some", "opt:Some")), ("core::option::Option::and_then", ("0", "none", "Some", None)),
+               ("core::result::Result::map", ("1", "same", "Ok", "res:Ok")), ("core::result::Result::and_then", ("1", "same", "Ok", None)))
 
 
 def _closure_agg(blocks, local):
@@ -221,6 +224,8 @@ def _eligible_comb(F, caller, blocks, t, stack):
     if a0[0] not in ("mv", "cp") or cl_op[0] not in ("mv", "cp") or len(cl_op[1]) != 1:
         return None
     if len(t["args"]) != (3 if spec[1] == "arg1" else 2):
+        return None
+    if t.get("mac"):
         return None
     agg = _closure_agg(blocks, cl_op[1][0])
     if agg is None:
@@ -508,11 +513,17 @@ class _Threader:
                 d = t["d"][0] if len(t.get("d") or []) == 1 else None
                 if d is not None:
                     env.pop(d, None)
-                if fresh is not None:
-                    stop = True     # single-assignment copies are only made of plain glue
-                elif src is not None and "Try" in nm and "branch" in nm and src[0] in ("res", "opt") and d is not None and t.get("t") is not None:
+                if src is not None and "Try" in nm and "branch" in nm and src[0] in ("res", "opt") and d is not None and t.get("t") is not None:
+                    if fresh is not None:
+                        # single-assignment copy of the `?`: its argument and its result get the names of this path
+                        nd = fresh(d)
+                        rename[d] = nd
+                        newterm = dict(t, args=[rn_op(a) for a in t["args"]], d=[nd])
+                        d = nd
                     env[d] = ("cf", "Continue" if src[1] in ("Ok", "Some") else "Break")
                     nxt = t["t"]
+                elif fresh is not None:
+                    stop = True     # single-assignment copies are only made of plain glue
                 else:
                     stop = True
             elif t["k"] == "switch":
@@ -615,7 +626,8 @@ def _thread_returns(thr, hraw, ren, ret_ids_new, call_t, is_async, dest_place):
 def _expand_combinator(F, body, det, byid, state, alloc_block, work, blk, spec, cl, agg, depth, stack, thr):
     """replace `d = opt.is_some_and(closure)` (etc.) by `switch discriminant(opt) { other => d = const; payload => d = closure(payload) }`"""
     t = blk["term"]
-    other_discr, yields, payload_variant = spec
+    other_discr, yields, payload_variant = spec[:3]
+    wrap = spec[3] if len(spec) > 3 else None
     hraw = F._detail_for(cl.unit).get(cl.path)
     if hraw is None or len(byid) + len(hraw["blocks"]) > MAX_TOTAL_BLOCKS:
         return
@@ -645,6 +657,10 @@ def _expand_combinator(F, body, det, byid, state, alloc_block, work, blk, spec, 
     blk["term"] = {"k": "switch", "on": ["mv", [tmp]], "targets": [[other_discr, b_other]], "otherwise": b_some, "l": line, "inlined_call": cl.npath}
     if yields in ("true", "false"):
         ost = [{"d": dest, "rv": {"k": "use", "a": ["c", yields]}, "l": line}]
+    elif yields == "none":
+        ost = [{"d": dest, "rv": {"k": "agg", "ak": "adt", "adt": "core::option::Option", "variant": "None", "fields": [], "ops": []}, "l": line}]
+    elif yields == "same":
+        ost = [{"d": dest, "rv": {"k": "use", "a": ["mv", opt_place]}, "l": line}]     # Err(e) handed on (the Ok type changes, the variant does not)
     else:
         ost = [{"d": dest, "rv": {"k": "use", "a": t["args"][1]}, "l": line}]
     for bid_, st_, tm_ in ((b_other, ost, {"k": "goto", "t": cont}),):
@@ -664,7 +680,11 @@ def _expand_combinator(F, body, det, byid, state, alloc_block, work, blk, spec, 
         stmts = [{"d": ren.place(s["d"]), "rv": ren.rv(s["rv"]), "l": s.get("l")} for s in hb["stmts"]]
         ht = hb["term"]
         if ht["k"] == "return":
-            stmts.append({"d": dest, "rv": {"k": "use", "a": ["mv", [lo]]}, "l": ht.get("l", line)})
+            if wrap:
+                wadt, wvar = ("core::option::Option", "Some") if wrap == "opt:Some" else ("core::result::Result", "Ok")
+                stmts.append({"d": dest, "rv": {"k": "agg", "ak": "adt", "adt": wadt, "variant": wvar, "fields": ["0"], "ops": [["mv", [lo]]]}, "l": ht.get("l", line)})
+            else:
+                stmts.append({"d": dest, "rv": {"k": "use", "a": ["mv", [lo]]}, "l": ht.get("l", line)})
             nt = {"k": "goto", "t": cont}
             ret_ids.add(hb["id"] + bo)
         elif ht["k"] == "resume":
@@ -684,6 +704,16 @@ def _expand_combinator(F, body, det, byid, state, alloc_block, work, blk, spec, 
     for v in hraw["vars"]:
         if isinstance(v.get("v"), list) and v["v"] and isinstance(v["v"][0], int):
             det["vars"].append({"name": v["name"], "v": ren.place(v["v"]), "arg": None, "inlined_from": cl.npath})
+    if wrap and len(dest) == 1:
+        # the wrapped result and the handed-on other variant have an evident variant: give each its own way to the caller's branch on it
+        try:
+            wtag = ("opt", "Some") if wrap == "opt:Some" else ("res", "Ok")
+            for rid in sorted(ret_ids):
+                tgt = thr.thread_caller(cont, {dest[0]: wtag})
+                if tgt != cont:
+                    byid[rid]["term"] = {"k": "goto", "t": tgt, "threaded_return": True}
+        except Exception:
+            pass
     det["extra"]["calls"] += _shift(cl.calls_raw, bo)
     det["extra"]["aggregates"] += _shift(cl.aggregates_raw, bo)
     det["extra"]["field_mut"] += _shift(cl.field_mut_raw, bo)
@@ -692,14 +722,15 @@ def _expand_combinator(F, body, det, byid, state, alloc_block, work, blk, spec, 
     call_t = {"t": cont}
     try:
         threaded = _thread_returns(thr, hraw, ren, ret_ids, call_t, False, dest)
-        if yields in ("true", "false") and len(dest) == 1:
+        otag = ("bool", yields == "true") if yields in ("true", "false") else ("opt", "None") if yields == "none" else ("res", "Err") if yields == "same" else None
+        if otag is not None and len(dest) == 1:
             def fresh(old):
                 nl = state["next_l"]
                 state["next_l"] += 1
                 det["locals"][str(nl)] = det["locals"].get(str(old), "bool")
                 return nl
             d2 = fresh(dest[0])
-            tgt = thr.thread_caller(cont, {d2: ("bool", yields == "true")}, fresh=fresh, rename={dest[0]: d2})
+            tgt = thr.thread_caller(cont, {d2: otag}, fresh=fresh, rename={dest[0]: d2})
             if tgt != cont:
                 byid[b_other]["stmts"] = [dict(ost[0], d=[d2])]
                 byid[b_other]["term"] = {"k": "goto", "t": tgt, "threaded_return": True}
